@@ -200,7 +200,7 @@ func (d *magDriver) hooks() absint.Hooks {
 				return res, true
 			}
 		}
-		switch f.Name() {
+		switch ssau.CanonName(f) {
 		case "scalarmultBaseChooseNiels":
 			// the selector's output is a table entry, possibly swapped/negated: the niels class
 			if pv, ok := args[0].(absint.PtrV); ok {
